@@ -38,8 +38,6 @@ use undermoon::proxy::service::{ClusterNodesVersion, ServerProxyConfig};
 use undermoon::proxy::session::{CmdCtx, CmdCtxHandler};
 use undermoon::proxy::slowlog::SlowRequestLogger;
 
-static T_NEW: AtomicU64 = AtomicU64::new(0);
-static T_RUN: AtomicU64 = AtomicU64::new(0);
 const ANNOUNCE_HOST: &str = "127.0.0.1";
 
 // ------------------------------------------------------------------------------------------
@@ -126,12 +124,6 @@ struct Proxy {
 
 impl Proxy {
     fn new() -> Self {
-        let _t0 = std::time::Instant::now();
-        let r = Self::new_inner();
-        T_NEW.fetch_add(_t0.elapsed().as_micros() as u64, std::sync::atomic::Ordering::Relaxed);
-        r
-    }
-    fn new_inner() -> Self {
         let config = Arc::new(server_config());
         let log: Log = Arc::new(Mutex::new(vec![]));
         let conn_factory = Arc::new(EchoAddrConnFactory { log: log.clone() });
@@ -152,12 +144,6 @@ impl Proxy {
 
     /// one command through `ForwardHandler::handle_cmd_ctx`
     async fn run(&self, args: &[Vec<u8>]) -> Result<RespVec, String> {
-        let _t0 = std::time::Instant::now();
-        let r = self.run_inner(args).await;
-        T_RUN.fetch_add(_t0.elapsed().as_micros() as u64, std::sync::atomic::Ordering::Relaxed);
-        r
-    }
-    async fn run_inner(&self, args: &[Vec<u8>]) -> Result<RespVec, String> {
         let resp = Resp::Arr(Array::Arr(args.iter().map(|b| Resp::Bulk(BulkStr::Str(b.clone()))).collect()));
         let cmd = Command::new(Box::new(RespPacket::Data(resp)));
         let (s, r) = new_command_pair(&cmd);
@@ -626,13 +612,12 @@ fn main() {
             let lines = read_lines(p);
             r.replay(&lines).await;
         } else {
-            let (cases, len) = if args.thorough { (3000, 40) } else { (100, 25) };
+            let (cases, len) = if args.thorough { (1200, 40) } else { (60, 20) };
             for _ in 0..cases {
                 let l = len / 2 + rng.below(len as u64) as usize;
                 r.gen_case(&mut rng, l).await;
             }
         }
-        eprintln!("t_new={}us t_run={}us", T_NEW.load(std::sync::atomic::Ordering::Relaxed), T_RUN.load(std::sync::atomic::Ordering::Relaxed));
         r.s.finish(
             "setmeta",
             "cases = SETCLUSTER sequences against one real proxy (pool of 3-6 contents x epoch class {higher,equal,lower,zero,max,+sign,jump} x flags {NOFLAGS,FORCE,force,COMPRESS,FORCE+COMPRESS,unknown} x own/foreign/prefix/malformed host, duplicates, malformed commands); non-trivial = at least two accepted and one refused message; distinct = distinct op sequences",
